@@ -10,6 +10,7 @@ fn main() {
     let rest = &args[2.min(args.len())..];
     let code = match w {
         "w_reg" => vh::w_reg::main(rest),
+        "w_channel" => vh::w_channel::main(rest),
         "w_halflock" => vh::w_halflock::main(rest),
         _ => {
             eprintln!("unknown workload {:?}", w);
